@@ -69,7 +69,10 @@ type h3 struct {
 	// leader (the server logs "Truncating log for partition ... to HW n" only when that removes something);
 	// the recorded finding ".../after-hw-fallback-truncation" can only concern offsets above one of them
 	fallbackHW *[]int64
-	client     *nats.Conn
+	// fallbackKept: servers that fell back with nothing to cut (their high watermark was their log end): they keep
+	// their whole log unreconciled with the new leader's - the divergence form of the same recorded finding
+	fallbackKept map[string]bool
+	client       *nats.Conn
 }
 
 func (h *h3) fail(clause, sig, format string, a ...any) {
@@ -137,7 +140,7 @@ func (h *h3) startNode(i int) error {
 	var err error
 	crashed := h.do(n.node, "start:"+n.id, func() {
 		n.srv = New(h.config(n, peers))
-		spy := &spyLogger{Logger: n.srv.logger, hits: h.logHits, fallbackHW: h.fallbackHW}
+		spy := &spyLogger{Logger: n.srv.logger, hits: h.logHits, fallbackHW: h.fallbackHW, id: n.id, kept: h.fallbackKept, sim0: h.s}
 		if h.verbose {
 			spy.sim = h.s
 		}
@@ -284,7 +287,7 @@ func runH3(t *testing.T, prog *hx.Program, dec *simrt.Decider, verbose bool, nse
 		return oc
 	}
 	defer os.RemoveAll(dir)
-	h := &h3{t: t, oc: oc, prog: prog, dir: dir, nextSim: 10, verbose: verbose, logHits: map[string]int{}, fallbackHW: new([]int64)}
+	h := &h3{t: t, oc: oc, prog: prog, dir: dir, nextSim: 10, verbose: verbose, logHits: map[string]int{}, fallbackHW: new([]int64), fallbackKept: map[string]bool{}}
 	cfg := simrt.Config{
 		StickyPct:  int(prog.Param("sticky", 80)),
 		LockYield:  int(prog.Param("lockyield", 100)),
@@ -427,6 +430,21 @@ type spyLogger struct {
 	hits map[string]int
 	sim  *simrt.Sim // set in verbose runs
 	fallbackHW *[]int64
+	id         string
+	kept       map[string]bool
+	sim0       *simrt.Sim
+}
+
+// fallbackKeptTag: the suffix of the same recorded finding in its divergence form, for a violation that involves
+// one of the given servers: that server fell back when its high watermark was its log end, so the fallback cut
+// nothing and the server follows its new leader with a log that was never reconciled with the leader's.
+func (h *h3) fallbackKeptTag(ids ...string) string {
+	for _, id := range ids {
+		if h.fallbackKept[id] {
+			return "/after-hw-fallback-truncation"
+		}
+	}
+	return ""
 }
 
 // fallbackTag: the suffix of the recorded finding "a follower that cannot reach its leader truncates to its own
@@ -461,6 +479,13 @@ func (l *spyLogger) Errorf(format string, v ...interface{}) {
 	for _, k := range []string{"Failed to fetch last offset for leader epoch"} {
 		if strings.HasPrefix(format, k) {
 			l.hits[k]++
+			if p, ok := v[0].(*partition); ok && len(v) > 0 && l.kept != nil && l.sim0 != nil {
+				l.sim0.Quiet(true)
+				if p.log.HighWatermark() == p.log.NewestOffset() {
+					l.kept[l.id] = true
+				}
+				l.sim0.Quiet(false)
+			}
 		}
 	}
 	l.Logger.Errorf(format, v...)
